@@ -1269,7 +1269,10 @@ impl<'a> ApplicableAttr<'a> {
                     None => or()
                 }
             }
-            ApplicableAttr::Ghost(_) => unreachable!("11"),
+            ApplicableAttr::Ghost(ghost) => match &ghost.action {
+                Some(val) => quote_action(val, field_path, ctx),
+                None => or(),
+            },
         }
     }
 
